@@ -130,7 +130,8 @@ Fixpoint frag (c : codec) : bool :=
   | CSliceLen c' | CSliceProto c' => frag c' && topb c'
   | CMap k v | CMapProto k v => frag k && frag v && topb k && topb v
   | CJMap | CJArr => true
-  | _ => false
+  | CBottom => true      (* the unfolding limit of a recursive type *)
+  | CBQ => false
   end.
 
 Lemma topb_top c : topb c = true -> top_ok c.
